@@ -104,6 +104,11 @@ def main(tier, replay):
     out = c.engine(mod, ['scratch/' + n for n in P if infos[n]['ok']], {}, jobs, record=10 if not quick else 0)
     for i, (j, jr, ctx) in enumerate(c.jobs):
         ctx.update(ctxs[j['pkg'].split('/')[-1]])
+    # engine (stubs) vs native build (real thrift/snappy/gzip) on concrete pseudo-random workloads: both must accept and round-trip
+    for n in ('p1', 'p3', 'p4', 'p5'):
+        cx = dict(scratch_ctx(infos[n]), dir=mod, overlay={})
+        for cd in (0, 1, 2):
+            differential(c, {'name': 'pipe-%s-c%d' % (n, cd), 'pkg': 'scratch/' + n, 'func': 'HarnessPipeline', 'args': [2, 1, -1, 2, 2, cd, 0, 1, 0, 0]}, cx, runs=20 if quick else 100)
     c.programs = len(P)
     c.bounds = {'a': 'per-record shred/assemble: 2 fully nondeterministic records (lists ≤ %d, strings ≤ 3 bytes) per core program; person/document 1 nondeterministic + 1 fixed-structure record; flat24 3 fixed-structure records' % ML,
                 'b': 'column chunks: 9 and 17 fixed-structure records per primitive type, page size symbolic ≥ 1 (and 8), strings ≤ 10 bytes; one page of 520 records with alternating structure (int32 and bool columns)',
